@@ -15,6 +15,12 @@ use crate::util::{b64_decode, b64_encode};
 pub const CLI_BIN: &str = "/verif/target/cli/debug/rsjsonnet";
 pub const SHIM_SO: &str = "/verif/target/shim/faultio.so";
 
+/// The binary under test (VERIF_CLI_BIN overrides it: used to run long batches against a private build while
+/// /repo is being edited).
+pub fn cli_bin() -> String {
+    std::env::var("VERIF_CLI_BIN").unwrap_or_else(|_| CLI_BIN.to_string())
+}
+
 #[derive(Clone, Debug, PartialEq)]
 pub enum Entry {
     Dir,
@@ -307,10 +313,10 @@ pub fn run_world_opt(world: &World, plan: &[Rule], strace_out: Option<&Path>) ->
     std::fs::write(&plan_path, plan_text).expect("harness: cannot write plan");
     let root_s = root.to_string_lossy().to_string();
     let mut cmd = match strace_out {
-        None => Command::new(CLI_BIN),
+        None => Command::new(cli_bin()),
         Some(p) => {
             let mut c = Command::new("strace");
-            c.args(["-f", "-s", "0", "-o"]).arg(p).args(["-e", "trace=open,openat,creat,read,pread64,readv,write,pwrite64,writev,stat,lstat,newfstatat,statx", "--", CLI_BIN]);
+            c.args(["-f", "-s", "0", "-o"]).arg(p).args(["-e", "trace=open,openat,creat,read,pread64,readv,write,pwrite64,writev,stat,lstat,newfstatat,statx", "--"]).arg(cli_bin());
             c
         }
     };
